@@ -27,6 +27,28 @@ Proof. intros H. unfold js_indexof. rewrite js_clamp_nat by assumption. reflexiv
 Lemma js_startswith_nat s p k : (k <= length s)%nat -> js_startswith s p (Z.of_nat k) = starts_with p (skipn k s).
 Proof. intros H. unfold js_startswith. rewrite js_clamp_nat by assumption. reflexivity. Qed.
 
+(* a pattern anchored at the start of src.substring(pos) finds what the same pattern finds anchored at pos in src (sticky
+   exec with lastIndex = pos, or Python's match(src, pos)): same groups; every position, in range or not *)
+Lemma re_match_substring r s i :
+  re_match r (js_substring s i None) 0%Z =
+  match re_match r s i with
+  | Some m => Some (mk_match 0%Z (0 + zlen (m_group0 m))%Z (m_group0 m) (m_group1 m))
+  | None => None
+  end.
+Proof.
+  assert (js_substring s i None = skipn (Z.to_nat (Z.min (Z.max 0 i) (zlen s))) s) as ->.
+  { unfold js_substring, js_clamp, zlen. set (p := Z.to_nat (Z.min (Z.max 0 i) (Z.of_nat (length s)))).
+    assert (p <= length s)%nat by (unfold p; lia). rewrite Nat.max_r, Nat.min_l by lia. apply firstn_all2. rewrite skipn_length. lia. }
+  unfold re_match. set (p := Z.to_nat (Z.min (Z.max 0 i) (zlen s))). set (t := skipn p s).
+  assert (Z.to_nat (Z.min (Z.max 0 0) (zlen t)) = 0)%nat as -> by (unfold zlen; lia). cbn [skipn].
+  destruct r.
+  - destruct (qmatch false t) as [[[g0 raw] r0]|]; reflexivity.
+  - destruct (qmatch true t) as [[[g0 raw] r0]|]; reflexivity.
+  - destruct (take_nsp t) as [[|c w] r0]; reflexivity.
+  - destruct (skip_sp t) as [sp1 r1]. destruct (take_nsp r1) as [[|c w] r2]; [reflexivity|]. destruct (skip_sp r2) as [sp2 r3]. reflexivity.
+Qed.
+#[export] Hint Rewrite re_match_substring : pynorm.
+
 (* ================================================================ extract_next_field *)
 
 Definition jsix_fallback (src dlm : str) (cidx : Z) (result : list str) (w0 : bool) : list str * (Z * bool) :=
